@@ -1166,6 +1166,11 @@ def gen_C20(o, rng, tier):
     maps and sets; then the decoded container is compared and used."""
     n = 3 if tier == "quick" else 4
     menu = [0, 1, 2, 3, 4, 6]
+    for c in menu:
+        o.case(m0=c, m1=c, s0=c, s1=c)
+        o.op("m0 serde_wrong", test=True)      # wrong input type: the visitors' `expecting` text
+        o.op("s0 serde_wrong", test=True)
+        o.end()
     for nn in range(0, n + 1):
         u = list(range(nn + 1))
         for lay in layouts(nn, u):
